@@ -287,7 +287,9 @@ def run(spec, mon):
     # ---- the same through `python -m behave` (step modules loaded from a steps directory with two modules) -------
     from ..lab.subproc import Project
     for i in range(2 if tier == "quick" else 20):
-        case = RB.gen_case(rng, p_dry=0.1, gen={"p_bg_param": 0.3, "p_cuke": 0.3})
+        # (every other project has no step module that imports its sibling: each step module is then loaded exactly once)
+        case = RB.gen_case(rng, p_dry=0.1, gen={"p_bg_param": 0.3, "p_cuke": 0.3 if i % 2 else 0.0})
+        mon.seen("steps_directory", "with_module_importing_its_sibling" if any(t[:1] == "c" for t in case["program"]["outcomes"]) else "every_module_loaded_once")
         if any(t[:1] == "c" for t in case["program"]["outcomes"]):
             mon.seen("step_definition_kind", "parameterless_cucumber_expression")
         pred = runmodel.predict(case["program"], case["cfg"])
